@@ -42,7 +42,8 @@ static struct Iter cv_op_iter = { op_init, op_next, NULL, NULL, NULL };
 size_t len(var self) { return MOP; }
 var get(var self, var key) { size_t i = ((char*)key - (char*)&OK_[0].v) / sizeof(OK_[0]); __CPROVER_assert(self == src && i < MOP, "get(operand, key) with a key of the operand"); return &OV_[i].v; }
 var instance(var self, var cls) { return &cv_op_iter; }
-var method_at_offset(var self, var cls, size_t offset, const char* m) { return &cv_op_iter; } bool implements_method_at_offset(var self, var cls, size_t offset) { return false; }
+var method_at_offset(var self, var cls, size_t offset, const char* m) { return &cv_op_iter; } bool implements_method_at_offset(var self, var cls, size_t offset) { return true; }
+var key_type(var self) { return ELEM; } var val_type(var self) { return ELEM; }
 
 static struct { struct Header h; struct Tree v; } TO; static struct Tree* t;
 static int64_t in_val[SH_N + 1]; static int64_t in_v; static OBJ(Elem, KX); static OBJ(Elem, VX); static var kx, vx;
@@ -204,4 +205,21 @@ void h_hash_cmp(void) {
   }
   ASSERT(Tree_Cmp(t, src) == want, "[C09] cmp on Tree is the lexicographic order over (key, value) pairs, key then value, shorter first");
   COVER(SH_N != MOP || SH_N == 0 || want == 0, "equal maps");
+}
+
+/* Tree_Assign (copy of another map): the old entries are finalised and freed, then every binding of the operand is set once
+ * (Tree_Set by its contract: C03.set on every shape) */
+static int cv_ts_calls, cv_ts_bad;
+void cv_tree_set_rec(var self, var key, var val) {
+  if (!(self == (var)t && cv_ts_calls < MOP && key == (var)&OK_[cv_ts_calls].v && val == (var)&OV_[cv_ts_calls].v && (cv_ts_calls > 0 || (t->root == NULL && t->nitems == 0)))) cv_ts_bad++;
+  cv_ts_calls++;
+}
+void h_assign(void) {
+  build();
+  src = MK(SRC, Ref, AllocStack);
+  for (int i = 0; i < MOP; i++) { header_init(&OK_[i].h, ELEM, AllocData); header_init(&OV_[i].h, ELEM, AllocData); OK_[i].v.val = nondet_long(); OV_[i].v.val = nondet_long(); OK_[i].v.tok = 1; OV_[i].v.tok = 1; }
+  Tree_Assign(t, src);
+  ASSERT(cv_retired == 2 * SH_N && cv_frees == SH_N, "[C05] assign finalises every key and value the tree held and frees every entry, once each");
+  ASSERT(cv_ts_calls == MOP && cv_ts_bad == 0 && t->ktype == ELEM && t->vtype == ELEM, "[C03][C05] assign sets every binding of the operand exactly once on the emptied tree (deep copy through set)");
+  COVER(1, "assign done");
 }
